@@ -262,6 +262,7 @@ fn graph_hash(g: &GraphSpec) -> u64 {
     for f in &g.fns {
         h.u64(f.reads as u64);
         h.u64(f.writes as u64);
+        h.u8(f.style);
     }
     for e in &g.calls {
         h.usize(e.from);
